@@ -387,23 +387,25 @@ private:
         // Place value in handoff slot
         m_handoff_ptr = ptr;
         m_handoff_ready = true;
+        auto seq = ++m_handoff_seq;
         m_unbuf_recv_cv.notify_one();
 
-        // Wait for receiver to take it
-        while (m_handoff_ready && !m_closed) {
+        // Wait for receiver to take it. Once it has been taken the slot may
+        // already hold the value of a later sender: only (ready && seq) is ours
+        while (m_handoff_ready && m_handoff_seq == seq && !m_closed) {
             if (timeout.expired()) {
-                if (m_handoff_ready) {
-                    delete m_handoff_ptr;
-                    m_handoff_ptr = nullptr;
-                    m_handoff_ready = false;
-                }
+                delete m_handoff_ptr;
+                m_handoff_ptr = nullptr;
+                m_handoff_ready = false;
+                // the slot is free again: senders waiting for it must re-check
+                m_unbuf_send_cv.notify_all();
                 errno = ETIMEDOUT;
                 return false;
             }
             m_unbuf_send_cv.wait(m_unbuf_mutex, timeout);
         }
 
-        return !m_closed || !m_handoff_ready;
+        return !m_closed || !(m_handoff_ready && m_handoff_seq == seq);
     }
 
     bool unbuffered_recv(T& value, Timeout timeout) {
@@ -513,6 +515,7 @@ private:
     // For unbuffered channels: mutex-based handoff
     T* m_handoff_ptr;
     bool m_handoff_ready;
+    uint64_t m_handoff_seq = 0;     // counts placements: tells a sender whether the slot still holds *its* value
     mutex m_unbuf_mutex;
     condition_variable m_unbuf_send_cv;
     condition_variable m_unbuf_recv_cv;
